@@ -36,9 +36,10 @@ VARIABLES target,      \* target[v] : final confirmation count of version v
           ppc,         \* persistence step in progress: 0 (idle) .. 3
           up,          \* process running?
           wBefore,     \* watermark just before the last crash (for RestartNoRegress)
+          lastPersisted,  \* ghost: watermark in the state file of the last completed persistence round
           nrep, h,
           stale        \* ghost: some report carried a lower count than an earlier one for a version above the watermark
-vars == <<target, hi, mem, W, cur, prev, temp, ppc, up, wBefore, nrep, h, stale>>
+vars == <<target, hi, mem, W, cur, prev, temp, ppc, up, wBefore, lastPersisted, nrep, h, stale>>
 
 Max(a, b) == IF a >= b THEN a ELSE b
 \* longest prefix of versions whose count f[v] reaches the quorum
@@ -49,7 +50,7 @@ Init ==
     /\ target \in [Vers -> 0..RF]
     /\ hi = [v \in Vers |-> 0] /\ mem = [v \in Vers |-> 0] /\ W = 0
     /\ cur = None /\ prev = None /\ temp = None /\ ppc = 0 /\ up = TRUE /\ wBefore = 0
-    /\ nrep = 0 /\ h = << >> /\ stale = FALSE
+    /\ nrep = 0 /\ h = << >> /\ stale = FALSE /\ lastPersisted = 0
 
 \* update_confirmation(v, c) on state (m, w): the new (m, w)
 Update(m, w, v, c) ==
@@ -65,7 +66,7 @@ Report(v, c) ==
     /\ nrep' = nrep + 1
     /\ h' = Append(h, [op |-> "report", v |-> v, c |-> c, w |-> W'])
     /\ stale' = (stale \/ (v > W /\ c < hi[v]))
-    /\ UNCHANGED <<target, cur, prev, temp, ppc, up, wBefore>>
+    /\ UNCHANGED <<target, cur, prev, temp, ppc, up, wBefore, lastPersisted>>
 
 Snap == [w |-> W, mem |-> mem, some |-> TRUE]
 PersistStep ==
@@ -75,6 +76,7 @@ PersistStep ==
          [] ppc = 2 -> (IF cur.some THEN prev' = cur /\ cur' = None ELSE UNCHANGED <<cur, prev>>) /\ UNCHANGED temp
          [] ppc = 3 -> cur' = temp /\ temp' = None /\ UNCHANGED prev
     /\ ppc' = (ppc + 1) % 4
+    /\ lastPersisted' = IF ppc = 3 THEN temp.w ELSE lastPersisted
     /\ h' = Append(h, [op |-> "persist", step |-> ppc + 1])
     /\ UNCHANGED <<target, hi, mem, W, up, wBefore, nrep, stale>>
 
@@ -82,19 +84,20 @@ Crash ==
     /\ up /\ up' = FALSE /\ wBefore' = W
     /\ mem' = [v \in Vers |-> 0] /\ W' = 0 /\ ppc' = 0
     /\ h' = Append(h, [op |-> "crash", after_step |-> ppc])
-    /\ UNCHANGED <<target, hi, cur, prev, temp, nrep, stale>>
+    /\ UNCHANGED <<target, hi, cur, prev, temp, nrep, stale, lastPersisted>>
 
 \* re-report the on-disk counts of the versions above the loaded watermark, in order
 RECURSIVE Reinit(_, _, _)
 Reinit(m, w, v) == IF v > N THEN [mem |-> m, w |-> w]
                    ELSE LET r == Update(m, w, v, hi[v]) IN Reinit(r.mem, r.w, v + 1)
+Loaded == IF cur.some THEN cur ELSE IF prev.some THEN prev ELSE None
 Restart ==
     /\ ~up /\ up' = TRUE
-    /\ LET loaded == IF cur.some THEN cur ELSE IF prev.some THEN prev ELSE None
-           r == Reinit(loaded.mem, loaded.w, loaded.w + 1)
+    /\ LET r == Reinit(Loaded.mem, Loaded.w, Loaded.w + 1)
        IN mem' = r.mem /\ W' = r.w
-    /\ h' = Append(h, [op |-> "restart", w |-> W'])
-    /\ UNCHANGED <<target, hi, cur, prev, temp, ppc, wBefore, nrep, stale>>
+    \* lw: what the state files alone give back (a restart against a database without events)
+    /\ h' = Append(h, [op |-> "restart", w |-> W', lw |-> Loaded.w])
+    /\ UNCHANGED <<target, hi, cur, prev, temp, ppc, wBefore, nrep, stale, lastPersisted>>
 
 Next == (\E v \in Vers, c \in 0..RF : Report(v, c)) \/ PersistStep \/ Crash \/ Restart
 Spec == Init /\ [][Next]_vars
@@ -105,10 +108,13 @@ Monotone == [][(up /\ up') => W' >= W]_vars
 Sound == W <= Lqp(hi, 1)
 Complete == (up /\ \A v \in Vers : hi[v] = target[v]) => W = Lqp(target, 1)
 RestartNoRegress == up => W >= wBefore
+\* whatever step the persistence sequence is interrupted at, the state files still give back at
+\* least the last completely persisted watermark
+PersistDurable == Loaded.w >= lastPersisted
 \* the in-memory map holds nothing at or below the watermark
 MemAboveW == \A v \in Vers : v <= W => mem[v] = 0
 
-View == <<target, hi, mem, W, cur, prev, temp, ppc, up, wBefore, nrep, stale>>
+View == <<target, hi, mem, W, cur, prev, temp, ppc, up, wBefore, lastPersisted, nrep, stale>>
 Bound == nrep <= MaxRep /\ Len(h) <= MaxRep + 10
 EmitSim == (Len(h) = MaxRep + 8) => PrintT(<<"REPLAY", ToJson([steps |-> h, target |-> target, rf |-> RF, n |-> N])>>)
 SimBound == Len(h) <= MaxRep + 8
